@@ -20,7 +20,7 @@ func init() {
 			"the response header rejects lengths outside (4, MaxResponseSize] and the receive loop sizes its buffer from that checked length (C10.cap); decode/versionedDecode succeed only if the whole buffer was consumed, length and CRC fields report a mismatch as an error (C10.consumed); decoder loops bounded by remaining() > 0 consume input or exit on every iteration (C10.loop-progress). " +
 			"no decoding step of the response path whose error is non-nil is answered with `return nil` — after a failed getter the cursor is at the end of the input, so such a swallowed error would let a truncated response through the final length test (C10.err-propagated; the ErrInsufficientData comparison of the truncated-tail handling is the one exempt idiom). " +
 			"NOT covered: memory use of decompression, hangs inside third-party codecs, CRC collision strength, semantic validity of decoded values.",
-		Rules: []func(*Ctx){c10Prim, c10Alloc, c10Cap, c10Consumed, c10LoopProgress, c10ErrPropagated, c10ErrLost, c09PoolOnce},
+		Rules: []func(*Ctx){c10Prim, c10Alloc, c10Cap, c10Consumed, c10LoopProgress, c10ErrPropagated, c10ErrLost, c09PoolOnce, c10RecordsPerBatch},
 	})
 }
 
@@ -1025,4 +1025,39 @@ func countsUpFromZero(phi *ssa.Phi, l *Loop) bool {
 		step = true
 	}
 	return zero && step
+}
+
+// C10.records-per-batch: each batch of a records field has its format sniffed from its own magic byte.
+func c10RecordsPerBatch(c *Ctx) {
+	p := c.P
+	rule := "C10.records-per-batch"
+	c.Doc(rule, "every Records value that FetchResponseBlock.decode (and ProduceRequest's records decoding) hands to Records.decode starts with recordsType unset: Records.decode sniffs the magic byte only when the type is unknown, so a type carried over from the previous batch makes a legacy message set be parsed as a record batch or the reverse — the decoder then spins without consuming (never returns) or returns half of the records without an error")
+	c.Floor(rule, 1)
+	n := 0
+	for _, fn := range p.Fns {
+		if rootOf(fn).Pkg != p.Sarama || !hasItem(fn, p.CallTo("Records.decode")) {
+			continue
+		}
+		for _, l := range p.literalsOf(fn, "Records") {
+			n++
+			v := l.fields["recordsType"]
+			ok := v == nil
+			if !ok {
+				if k, isC := dConstInt(v); isC && k == 0 {
+					ok = true
+				}
+			}
+			c.Check(ok, rule, fn, "type-unset", l.alloc, "the Records value to decode has no format preset", "a Records value is handed to decode with its format already set from elsewhere ("+describeOr(v)+"): the magic byte of this batch is not looked at", nil)
+		}
+	}
+	if n == 0 {
+		c.Unresolved(rule, "Records literals in functions that call Records.decode")
+	}
+}
+
+func describeOr(v ssa.Value) string {
+	if v == nil {
+		return "unset"
+	}
+	return describe(v)
 }
